@@ -298,3 +298,497 @@ def describe_set(points):
         out.append(ch(pts[i]) if i == j else '%s..%s' % (ch(pts[i]), ch(pts[j])))
         i = j + 1
     return ' '.join(out)
+
+
+# =====================================================================================
+# 2. Interval interpreter with bounded unrolling (compint codec)
+# =====================================================================================
+"""
+Abstract state: every integer variable is an interval [lo, hi] of mathematical
+integers; loop counters that stay singletons make the unrolling finite (the
+decode loop is bounded by MAX_COMP_SIZE, read from the source).  Every
+arithmetic node is checked against the range of its C type as given by clang's
+type-checked AST (after the usual arithmetic conversions): a signed result
+outside its type is undefined behaviour, an unsigned one wraps; both are
+recorded on the path and reported when the path reaches an *accepting* return.
+Bytes read through the input pointer are [0,255] (unsigned char) / [-128,127];
+reads are recorded with the pointer offset so that bound checks and the
+bookkeeping of the caller's cursor can be decided.  Nothing is executed: a
+state stands for all inputs whose bytes lie in the intervals.
+"""
+
+INT_RANGES = {8: (-128, 127), 16: (-32768, 32767), 32: (-2 ** 31, 2 ** 31 - 1), 64: (-2 ** 63, 2 ** 63 - 1)}
+
+
+def type_range(t, dt=None):
+    w = type_width(t, dt)
+    x = (dt or t or '').replace('const ', '').strip()
+    if x in ('_Bool', 'bool'):
+        return (0, 1)
+    if w is None:
+        return None
+    if x.endswith('*') or '(*)' in x:
+        return None
+    if is_unsigned_type(t, dt):
+        return (0, (1 << w) - 1)
+    return INT_RANGES[w]
+
+
+class IState(object):
+    __slots__ = ('env', 'ptr', 'reads', 'events', 'facts')
+
+    def __init__(self):
+        self.env = {}      # key -> (lo, hi)
+        self.ptr = {}      # pointer var decl -> (root name, offset int)
+        self.reads = []    # list of (root, offset, line, bounded?)
+        self.events = []   # overflow events
+        self.facts = {}    # key -> set of ('<', other key) relational facts established by branches
+
+    def copy(self):
+        s = IState()
+        s.env = dict(self.env)
+        s.ptr = dict(self.ptr)
+        s.reads = list(self.reads)
+        s.events = list(self.events)
+        s.facts = dict((k, set(v)) for k, v in self.facts.items())
+        return s
+
+
+class IntervalInterp(object):
+    MAX_STEPS = 400000
+
+    def __init__(self, prog, fn, input_params, out_params, call_model=None):
+        """input_params: names of pointer parameters that point to input bytes;
+        out_params: names of pointer parameters treated as scalar out/in-out cells (*p)."""
+        self.prog = prog
+        self.fn = fn
+        self.input_params = set(input_params)
+        self.out_params = set(out_params)
+        self.call_model = call_model
+        self.exits = []    # (return interval, state, node)
+        self.steps = 0
+
+    # ---- keys
+    def key_of(self, e):
+        e = strip(e)
+        if e.k == 'var':
+            return ('v', e.decl, e.op)
+        # cell of a local (non-input) pointer with a constant subscript: i[0]
+        if e.k == 'idx':
+            b = strip(e.a[0])
+            if b.k == 'var' and b.op not in self.input_params and b.op not in self.out_params and \
+                    const_value(e.a[1]) is not None and b.dk == 'VarDecl':
+                return ('m', b.decl, '%s[%d]' % (b.op, const_value(e.a[1])))
+        if e.k == 'un' and e.op == '*':
+            b = strip(e.a[0])
+            if b.k == 'var' and b.op in self.out_params:
+                return ('d', b.decl, '*' + b.op)
+        if e.k == 'idx':
+            b = strip(e.a[0])
+            if b.k == 'var' and b.op in self.out_params and const_value(e.a[1]) == 0:
+                return ('d', b.decl, '*' + b.op)
+        return None
+
+    def fit(self, iv, e, st, what='result'):
+        """Check interval against the C type of node e; returns the interval
+        as seen after conversion to that type."""
+        rng = type_range(e.t, e.dt)
+        if rng is None or iv is None:
+            return iv
+        lo, hi = iv
+        if lo < rng[0] or hi > rng[1]:
+            unsigned = rng[0] == 0 and rng[1] > 1
+            st.events.append({'line': e.line, 'expr': show(e)[:80], 'interval': (lo, hi), 'type': e.t,
+                              'kind': 'unsigned wrap-around' if unsigned else 'signed overflow / narrowing'})
+            return rng
+        return iv
+
+    def ev(self, e, st):
+        """-> interval or None (unknown / non-integer)"""
+        if e is None:
+            return None
+        if e.k == 'cast':
+            v = self.ev(e.a[0], st)
+            if e.op in ('IntegralCast',):
+                return self.fit(v, e, st, 'conversion')
+            if e.op in ('IntegralToBoolean', 'PointerToBoolean'):
+                if v is None:
+                    return (0, 1)
+                if v[0] > 0 or v[1] < 0:
+                    return (1, 1)
+                if v == (0, 0):
+                    return (0, 0)
+                return (0, 1)
+            return v
+        cv = const_value(e)
+        if cv is not None:
+            return (cv, cv)
+        k = e.k
+        if k in ('var',) or (k == 'un' and e.op == '*') or k == 'idx':
+            # input byte?
+            rd = self.input_read(e, st)
+            if rd is not None:
+                return rd
+            key = self.key_of(e)
+            if key is not None and key in st.env:
+                return st.env[key]
+            return type_range(e.t, e.dt)
+        if k == 'mem':
+            return type_range(e.t, e.dt)
+        if k == 'un':
+            v = self.ev(e.a[0], st)
+            if e.op == '-':
+                return self.fit(None if v is None else (-v[1], -v[0]), e, st)
+            if e.op == '+':
+                return v
+            if e.op == '!':
+                if v is None:
+                    return (0, 1)
+                if v == (0, 0):
+                    return (1, 1)
+                if v[0] > 0 or v[1] < 0:
+                    return (0, 0)
+                return (0, 1)
+            if e.op == '~':
+                return type_range(e.t, e.dt)
+            return type_range(e.t, e.dt)
+        if k == 'bin':
+            op = e.op
+            if op in ('&&', '||'):
+                return (0, 1)
+            if op in ('<', '>', '<=', '>=', '==', '!='):
+                t = self.truth(e, st)
+                return (1, 1) if t is True else (0, 0) if t is False else (0, 1)
+            if op == ',':
+                return self.ev(e.a[1], st)
+            l, r = self.ev(e.a[0], st), self.ev(e.a[1], st)
+            if l is None or r is None:
+                return type_range(e.t, e.dt)
+            if op == '+':
+                return self.fit((l[0] + r[0], l[1] + r[1]), e, st)
+            if op == '-':
+                # x - (x % k): the one relational fact the encoder needs (non-negative, same magnitude)
+                kx = self.key_of(self.unwrap(e.a[0]))
+                ky = self.key_of(self.unwrap(e.a[1]))
+                d = st.facts.get(('def', ky)) if ky is not None else None
+                if d is not None and kx is not None and d[0] == 'mod' and d[1] == kx and l[0] >= 0:
+                    return self.fit((max(0, l[0] - (d[2] - 1)), l[1]), e, st)
+                return self.fit((l[0] - r[1], l[1] - r[0]), e, st)
+            if op == '*':
+                c = [l[0] * r[0], l[0] * r[1], l[1] * r[0], l[1] * r[1]]
+                return self.fit((min(c), max(c)), e, st)
+            if op == '<<':
+                if r[0] < 0 or r[1] > 200 or l[0] < 0:
+                    return type_range(e.t, e.dt)
+                w = type_width(e.t, e.dt)
+                if w is not None and r[1] >= w:
+                    st.events.append({'line': e.line, 'expr': show(e)[:80], 'interval': r, 'type': e.t,
+                                      'kind': 'shift count >= width of the promoted type (%d)' % w})
+                    return type_range(e.t, e.dt)
+                return self.fit((l[0] << r[0], l[1] << r[1]), e, st)
+            if op == '>>':
+                if r[0] < 0 or r[1] > 200 or l[0] < 0:
+                    return type_range(e.t, e.dt)
+                w = type_width(e.t, e.dt)
+                if w is not None and r[1] >= w:
+                    st.events.append({'line': e.line, 'expr': show(e)[:80], 'interval': r, 'type': e.t,
+                                      'kind': 'shift count >= width of the promoted type (%d)' % w})
+                    return type_range(e.t, e.dt)
+                return (l[0] >> r[1], l[1] >> r[0])
+            if op == '/':
+                if r[0] <= 0 <= r[1]:
+                    return type_range(e.t, e.dt)
+                c = [tdiv(a, b) for a in l for b in r]
+                return (min(c), max(c))
+            if op == '%':
+                if r[0] <= 0:
+                    return type_range(e.t, e.dt)
+                if l[0] >= 0:
+                    if l[1] < r[0]:
+                        return l
+                    return (0, r[1] - 1)
+                return (-(r[1] - 1), r[1] - 1)
+            if op == '|':
+                if l[0] >= 0 and r[0] >= 0:
+                    return (max(l[0], r[0]), (1 << max(l[1].bit_length(), r[1].bit_length())) - 1)
+                return type_range(e.t, e.dt)
+            if op == '&':
+                if r[0] == r[1] and r[0] >= 0 and l[0] >= 0:
+                    return (0, min(l[1], r[0]))
+                if l[0] == l[1] and l[0] >= 0 and r[0] >= 0:
+                    return (0, min(r[1], l[0]))
+                return type_range(e.t, e.dt)
+            return type_range(e.t, e.dt)
+        if k == 'cond':
+            a, b = self.ev(e.a[1], st), self.ev(e.a[2], st)
+            if a is None or b is None:
+                return None
+            return (min(a[0], b[0]), max(a[1], b[1]))
+        if k == 'sizeof' and e.val is not None:
+            return (e.val, e.val)
+        if k == 'call':
+            return type_range(e.t, e.dt)
+        return type_range(e.t, e.dt)
+
+    def input_read(self, e, st):
+        """If e dereferences an input pointer, record the read and return the byte interval."""
+        se = strip(e)
+        base = None
+        off = None
+        if se.k == 'idx':
+            base = strip(se.a[0])
+            iv = self.ev(se.a[1], st)
+            if iv is None or iv[0] != iv[1]:
+                off = None
+            else:
+                off = iv[0]
+        elif se.k == 'un' and se.op == '*':
+            base = strip(se.a[0])
+            off = 0
+        else:
+            return None
+        if base is None or base.k != 'var':
+            return None
+        if base.decl in st.ptr:
+            root, o = st.ptr[base.decl]
+        elif base.op in self.input_params:
+            root, o = base.op, 0
+        else:
+            return None
+        bounded = self.read_bounded(st)
+        st.reads.append((root, None if off is None else o + off, se.line, bounded))
+        return type_range(se.t, se.dt) or (0, 255)
+
+    def read_bounded(self, st):
+        return bool(st.facts.get('bound'))
+
+    # ---- conditions
+    def truth(self, atom, st):
+        a = atom
+        while a.k == 'cast':
+            a = a.a[0]
+        if a.k == 'bin' and a.op in ('<', '>', '<=', '>=', '==', '!='):
+            l, r = self.ev(a.a[0], st), self.ev(a.a[1], st)
+            if l is None or r is None:
+                return None
+            op = a.op
+            if op == '<':
+                return True if l[1] < r[0] else False if l[0] >= r[1] else None
+            if op == '<=':
+                return True if l[1] <= r[0] else False if l[0] > r[1] else None
+            if op == '>':
+                return True if l[0] > r[1] else False if l[1] <= r[0] else None
+            if op == '>=':
+                return True if l[0] >= r[1] else False if l[1] < r[0] else None
+            if op == '==':
+                return True if l[0] == l[1] == r[0] == r[1] else False if (l[1] < r[0] or l[0] > r[1]) else None
+            if op == '!=':
+                return False if l[0] == l[1] == r[0] == r[1] else True if (l[1] < r[0] or l[0] > r[1]) else None
+        v = self.ev(a, st)
+        if v is None:
+            return None
+        if v == (0, 0):
+            return False
+        if v[0] > 0 or v[1] < 0:
+            return True
+        return None
+
+    def refine(self, atom, label, st):
+        """Refine st (in place) with the atom having outcome label."""
+        a = atom
+        while a.k == 'cast':
+            a = a.a[0]
+        if a.k == 'bin' and a.op in ('<', '>', '<=', '>=', '==', '!='):
+            op = a.op
+            if not label:
+                op = {'<': '>=', '<=': '>', '>': '<=', '>=': '<', '==': '!=', '!=': '=='}[op]
+            for x, y, o in ((a.a[0], a.a[1], op), (a.a[1], a.a[0], {'<': '>', '>': '<', '<=': '>=', '>=': '<=', '==': '==', '!=': '!='}[op])):
+                kx = self.key_of(self.unwrap(x))
+                yv = self.ev(y, st)
+                xv = self.ev(x, st)
+                if kx is not None and yv is not None and xv is not None:
+                    lo, hi = xv
+                    if o == '<':
+                        hi = min(hi, yv[1] - 1)
+                    elif o == '<=':
+                        hi = min(hi, yv[1])
+                    elif o == '>':
+                        lo = max(lo, yv[0] + 1)
+                    elif o == '>=':
+                        lo = max(lo, yv[0])
+                    elif o == '==':
+                        lo, hi = max(lo, yv[0]), min(hi, yv[1])
+                    if lo <= hi:
+                        st.env[kx] = (lo, hi)
+                # relational fact: cursor < limit
+                ky = self.key_of(self.unwrap(y))
+                if kx is not None and o == '<' and self.is_cursor(kx) and self.is_limit(y):
+                    st.facts['bound'] = set(['cursor<limit'])
+        else:
+            k = self.key_of(self.unwrap(a))
+            v = self.ev(a, st)
+            if k is not None and v is not None:
+                if label and v[0] == 0 and v[1] > 0:
+                    st.env[k] = (1, v[1])
+                elif not label:
+                    st.env[k] = (0, 0)
+
+    def unwrap(self, e):
+        while e is not None and e.k == 'cast':
+            e = e.a[0]
+        return e
+
+    def is_cursor(self, key):
+        return key[0] == 'd' and key[2] in getattr(self, 'cursor_names', ())
+
+    def is_limit(self, e):
+        e = self.unwrap(e)
+        return e.k == 'var' and e.op in getattr(self, 'limit_names', ())
+
+    # ---- effects
+    def assign(self, lhs, val, st, line, node):
+        l = self.unwrap(lhs)
+        key = self.key_of(l)
+        if key is None:
+            return
+        if val is not None:
+            rng = type_range(l.t, l.dt)
+            if rng is not None and (val[0] < rng[0] or val[1] > rng[1]):
+                unsigned = rng[0] == 0 and rng[1] > 1
+                st.events.append({'line': line, 'expr': show(node)[:80], 'interval': val, 'type': l.t,
+                                  'kind': 'unsigned wrap-around' if unsigned else 'signed overflow / narrowing'})
+                val = rng
+            st.env[key] = val
+        else:
+            st.env.pop(key, None)
+        if self.is_cursor(key):
+            st.facts.pop('bound', None)
+        # definitions x[k] = y % c are remembered until y changes
+        for fk in [f for f in st.facts if isinstance(f, tuple) and f[0] == 'def']:
+            if st.facts[fk][1] == key or fk[1] == key:
+                del st.facts[fk]
+        if key[0] == 'm' and node is not None and getattr(node, 'k', None) == 'bin' and node.op == '=':
+            r = self.unwrap(node.a[1])
+            if r is not None and r.k == 'bin' and r.op == '%' and const_value(r.a[1]) and const_value(r.a[1]) > 0:
+                ky = self.key_of(self.unwrap(r.a[0]))
+                if ky is not None:
+                    st.facts[('def', key)] = ('mod', ky, const_value(r.a[1]))
+
+    def exec_expr(self, e, st):
+        """Execute side effects of e on st (single state; calls handled by model)."""
+        for n in self.post(e):
+            if n.k == 'bin' and n.op == '=':
+                l = self.unwrap(n.a[0])
+                if l.k == 'var' and (l.t or '').rstrip().endswith('*'):
+                    # pointer assignment
+                    r = self.unwrap(n.a[1])
+                    self.ptr_assign(l, r, st)
+                    continue
+                self.assign(n.a[0], self.ev(n.a[1], st), st, n.line, n)
+            elif n.k == 'bin' and n.op in ('+=', '-=', '*=', '/=', '<<=', '>>=', '|=', '&='):
+                l = self.unwrap(n.a[0])
+                if l.k == 'var' and l.decl in st.ptr and n.op in ('+=', '-='):
+                    d = self.ev(n.a[1], st)
+                    root, o = st.ptr[l.decl]
+                    if d is not None and d[0] == d[1]:
+                        st.ptr[l.decl] = (root, o + (d[0] if n.op == '+=' else -d[0]))
+                    else:
+                        st.ptr[l.decl] = (root, None)
+                    continue
+                from ..ir import E as _E
+                fake = _E('bin', op=n.op[:-1], a=[n.a[0], n.a[1]], t=n.t, dt=n.dt, line=n.line)
+                # compound assignment computes in the promoted type of the operands
+                lt = self.unwrap(n.a[0])
+                self.assign(n.a[0], self.ev(fake, st), st, n.line, n)
+            elif n.k == 'un' and n.op in ('++', '--'):
+                l = self.unwrap(n.a[0])
+                d = 1 if n.op == '++' else -1
+                if l.k == 'var' and (l.decl in st.ptr or l.op in self.input_params):
+                    root, o = st.ptr.get(l.decl, (l.op, 0))
+                    st.ptr[l.decl] = (root, None if o is None else o + d)
+                    continue
+                if l.k == 'var' and (l.t or '').rstrip().endswith('*'):
+                    for kk in [x for x in st.env if x[0] == 'm' and x[1] == l.decl]:
+                        del st.env[kk]
+                    for fk in [f for f in st.facts if isinstance(f, tuple) and f[0] == 'def' and f[1][1] == l.decl]:
+                        del st.facts[fk]
+                    continue
+                v = self.ev(n.a[0], st)
+                self.assign(n.a[0], None if v is None else (v[0] + d, v[1] + d), st, n.line, n)
+            elif n.k == 'call':
+                if self.call_model is not None:
+                    self.call_model(self, n, st)
+
+    def ptr_assign(self, l, r, st):
+        r = self.unwrap(r)
+        if r is None:
+            return
+        if r.k == 'var' and (r.op in self.input_params or r.decl in st.ptr):
+            st.ptr[l.decl] = st.ptr.get(r.decl, (r.op, 0))
+        elif r.k == 'bin' and r.op in ('+', '-'):
+            b = self.unwrap(r.a[0])
+            d = self.ev(r.a[1], st)
+            if b.k == 'var' and (b.op in self.input_params or b.decl in st.ptr):
+                root, o = st.ptr.get(b.decl, (b.op, 0))
+                if d is not None and d[0] == d[1] and o is not None:
+                    st.ptr[l.decl] = (root, o + (d[0] if r.op == '+' else -d[0]))
+                else:
+                    st.ptr[l.decl] = (root, None)
+
+    def post(self, e):
+        from ..ir import walk_eval_order
+        return [n for n in walk_eval_order(e) if n.k in ('bin', 'un', 'call')]
+
+    # ---- driver
+    def run(self, init_env=None):
+        g = build_cfg(self.fn)
+        st0 = IState()
+        for k, v in (init_env or {}).items():
+            st0.env[k] = v
+        work = [(g.entry, st0)]
+        while work:
+            self.steps += 1
+            if self.steps > self.MAX_STEPS:
+                raise AnalysisBroken('%s: interval interpreter exceeded %d steps (unbounded loop?)' % (
+                    self.fn.name, self.MAX_STEPS))
+            node, st = work.pop()
+            k = node.k
+            if k in ('entry', 'join'):
+                for m, lab in node.succ:
+                    work.append((m, st))
+            elif k == 'exit':
+                self.exits.append((None, st, node))
+            elif k == 'stmt':
+                self.exec_expr(node.e, st)
+                for m, lab in node.succ:
+                    work.append((m, st))
+            elif k == 'decl':
+                if node.e is not None and not node.static:
+                    v = node.var
+                    if (v.t or '').rstrip().endswith('*'):
+                        self.exec_expr(node.e, st)
+                        self.ptr_assign(v, node.e, st)
+                    else:
+                        self.exec_expr(node.e, st)
+                        self.assign(v, self.ev(node.e, st), st, node.line, node.e)
+                for m, lab in node.succ:
+                    work.append((m, st))
+            elif k == 'branch':
+                self.exec_expr(node.e, st)
+                t = self.truth(node.e, st)
+                for m, lab in node.succ:
+                    if t is not None and bool(lab) != t:
+                        continue
+                    s2 = st.copy() if t is None else st
+                    self.refine(node.e, bool(lab), s2)
+                    work.append((m, s2))
+            elif k == 'ret':
+                if node.e is not None:
+                    self.exec_expr(node.e, st)
+                    v = self.ev(node.e, st)
+                else:
+                    v = None
+                self.exits.append((v, st, node))
+            elif k == 'switch':
+                raise AnalysisBroken('%s: switch not supported by the interval interpreter' % self.fn.name)
+        return self.exits
